@@ -677,9 +677,8 @@ Definition newfb_state (st : state) (w h bpp seed : Z) : state :=
 
 (* ------------------------------------------------------------------ SetDesktopSize *)
 (* rfbserver.c:3134-3143: after an accepted request EVERY other client's reason becomes "other client",
-   also when that client's own answer (reason "this client") has not been sent yet: F31.
-   notes/fix_C16_4.diff skips those clients; notes/fix_C16_4_model.diff flips this flag. *)
-Definition sds_keeps_own_answer : bool := false.
+   except (since fix_C16_4) a client whose own answer (reason "this client") has not been sent yet: F31, fixed. *)
+Definition sds_keeps_own_answer : bool := true.
 
 Definition setdesktop_one (requester : bool) (hookres : Z) (c : client) : client :=
   if requester then
